@@ -31,7 +31,14 @@ func (r *EntityRemote) Device() api.DeviceRemoteInterface {
 }
 
 func (r *EntityRemote) UpdateDeviceAddress(address model.AddressDeviceType) {
-	r.address.Device = &address
+	r.muxAddress.Lock()
+	defer r.muxAddress.Unlock()
+
+	// the address may already be in use elsewhere, so do not modify it in place
+	r.address = &model.EntityAddressType{
+		Device: &address,
+		Entity: r.address.Entity,
+	}
 }
 
 func (r *EntityRemote) AddFeature(f api.FeatureRemoteInterface) {
